@@ -33,7 +33,8 @@ TARGETS = {
                      "Bip32Path._to_list", "Bip32Path.to_list", "Bip32Path.integrity_check", "Bip32Path.__init__",
                      "Bip32Path.m", "Bip32Path.repr_hardened", "Bip32Path.__repr__", "Bip32Path.parse"],
     "script": ["Script.raw_serialize", "Script.serialize", "Script.__init__", "p2wsh_script", "p2wpkh_script", "p2sh_script", "p2pkh_script"],
-    "bip39": ["correct_entropy_bits_value", "checksum_length", "mnemonic_sentence_length", "mnemonic_from_entropy", "mnemonic_from_entropy_bits"],
+    "bip39": ["correct_entropy_bits_value", "checksum_length", "mnemonic_sentence_length", "mnemonic_from_entropy", "mnemonic_from_entropy_bits",
+              "bip39_seed_from_mnemonic"],
     "bip85": ["BIP85DeterministicEntropy.byte_count_from_word_count", "BIP85DeterministicEntropy.hex", "BIP85DeterministicEntropy.bip39_mnemonic"],
     "ripemd": ["fi", "rol", "compress", "ripemd160"],
     "keys": ["PrivateKey.__bytes__", "PrivateKey.wif"],
@@ -51,6 +52,10 @@ EXTERNS = {
 # an external primitive that is not a function of the package: the module-level object `random = random.SystemRandom()`;
 # what is pinned is that binding (extern_ok); getrandbits(k) answers an arbitrary integer, a parameter of the theorems
 EXTERNS["bip39.random.getrandbits"] = (["k"], None)
+# functions of imported standard modules as external primitives; pinned: the module name is bound by a plain `import` only, and the
+# call has exactly the recognised shape (normalisation form / digest name are constants of the call)
+EXTERNS["bip39.unicodedata.normalize_nfkd"] = (["s"], ("import", "unicodedata"))
+EXTERNS["bip39.hashlib.pbkdf2_hmac_sha512"] = (["password", "salt", "rounds"], ("import", "hashlib"))
 EXTERN_KIND = {"bip85.BIP85DeterministicEntropy.entropy": "instance"}
 EXN = {"IndexError", "TypeError", "ValueError", "OverflowError", "ZeroDivisionError", "RuntimeError", "KeyError", "ArgumentError", "AssertionError"}
 BINOPS = {ast.Add: "Add", ast.Sub: "Sub", ast.Mult: "Mul", ast.FloorDiv: "FloorDiv", ast.Mod: "Mod",
@@ -459,6 +464,19 @@ class FunTrans:
                     and isinstance(pat.right, ast.Constant) and isinstance(pat.right.value, int):
                 return "(EBuiltin BChunks (ECons (EConst (VInt %d)) %s))" % (pat.right.value, self.exprs([e.args[1]], scope))
             raise Untranslatable("re.findall with a pattern other than '.' * K")
+        # unicodedata.normalize("NFKD", s) / hashlib.pbkdf2_hmac("sha512", pw, salt, rounds)
+        if isinstance(f, ast.Attribute) and isinstance(f.value, ast.Name) and not self.is_local(f.value.id, scope) and not e.keywords \
+                and not any(isinstance(a, ast.Starred) for a in e.args):
+            if f.value.id == "unicodedata" and f.attr == "normalize" and len(e.args) == 2 and isinstance(e.args[0], ast.Constant) \
+                    and e.args[0].value == "NFKD" and ("%s.unicodedata.normalize_nfkd" % self.mod.name) in EXTERNS:
+                xq = "%s.unicodedata.normalize_nfkd" % self.mod.name
+                self.calls.append(xq)
+                return "(ECall %s %s)" % (cstr(xq), self.exprs(e.args[1:], scope))
+            if f.value.id == "hashlib" and f.attr == "pbkdf2_hmac" and len(e.args) == 4 and isinstance(e.args[0], ast.Constant) \
+                    and e.args[0].value == "sha512" and ("%s.hashlib.pbkdf2_hmac_sha512" % self.mod.name) in EXTERNS:
+                xq = "%s.hashlib.pbkdf2_hmac_sha512" % self.mod.name
+                self.calls.append(xq)
+                return "(ECall %s %s)" % (cstr(xq), self.exprs(e.args[1:], scope))
         # random.getrandbits(k) on the module-level SystemRandom object
         if isinstance(f, ast.Attribute) and isinstance(f.value, ast.Name) and f.value.id == "random" and f.attr == "getrandbits" \
                 and not self.is_local("random", scope) and len(e.args) == 1 and not e.keywords and not isinstance(e.args[0], ast.Starred):
@@ -499,6 +517,8 @@ class FunTrans:
                 if "{" in f.value.value.replace("{}", "") or "}" in f.value.value.replace("{}", "") or any(isinstance(a, ast.Starred) for a in e.args):
                     raise Untranslatable("format template with fields other than {}")
                 return "(EMeth MFormat %s %s)" % (self.expr(f.value, scope), self.exprs(e.args, scope))
+            if f.attr == "encode" and len(e.args) == 1 and isinstance(e.args[0], ast.Constant) and e.args[0].value == "utf-8":
+                return "(EMeth MEncodeUtf8 %s ENil)" % self.expr(f.value, scope)
             if f.attr == "encode" and len(e.args) == 1 and isinstance(e.args[0], ast.Constant) and e.args[0].value == "ascii":
                 return "(EMeth MEncodeAscii %s ENil)" % self.expr(f.value, scope)
             if f.attr in METHODS:
@@ -684,6 +704,16 @@ class World:
 
     def extern_ok(self, qual):
         m, f = qual.split(".", 1)
+        if isinstance(EXTERNS[qual][1], tuple):
+            name = EXTERNS[qual][1][1]
+            tree = self.mod(m).tree
+            binds = [n for n in ast.walk(tree) if (isinstance(n, (ast.Assign, ast.AugAssign, ast.AnnAssign, ast.For, ast.With, ast.FunctionDef, ast.ClassDef)) and
+                                                   (getattr(n, "name", None) == name or
+                                                    any(isinstance(t, ast.Name) and t.id == name and isinstance(getattr(t, "ctx", None), ast.Store) for t in ast.walk(n))))
+                     or (isinstance(n, ast.Global) and name in n.names)
+                     or (isinstance(n, ast.arg) and n.arg == name)
+                     or (isinstance(n, (ast.Import, ast.ImportFrom)) and any((a.asname or a.name) == name for a in n.names))]
+            return [ast.unparse(b) for b in binds] == ["import " + name] and all(b in tree.body for b in binds)
         if EXTERNS[qual][1] is None:
             # `import random` and exactly one module-level binding of the name: random = random.SystemRandom()
             tree = self.mod(m).tree
